@@ -72,7 +72,7 @@ var props = map[string]propSpec{
 		{Name: "agentw", Quick: 300, Thorough: 900, Args: []string{"-prop", "C20"}},
 	}, Assume: []string{
 		"virtual clock: time passes only when no thread can run; 'promptly' and 'when the period ends' are decided in virtual time",
-		"health histories up to length 5 (quick) / 7 (thorough) x thresholds {0,1,2,3}; shutdown: both signals x grace {0,2s,5s,10s} x backend latency {0,5s}, signal delivered at every point reachable with 1 (quick) / 2 (thorough) scheduler deviations",
+		"health histories up to length 5 (quick) / 7 (thorough) x thresholds {0,1,2,3} x what a failing check looks like {500, connection refused, 202, 204, 404}; shutdown: both signals x grace {0,2s,5s,10s} x backend latency {0,5s}, signal delivered at every point reachable with 1 (quick) / 2 (thorough) scheduler deviations",
 	}},
 	"C13": {Level: "exploration", Harnesses: []harnessSpec{
 		{Name: "shimurl", Quick: 300, Thorough: 900},
